@@ -392,7 +392,7 @@ func c19Keys(res *fw.CaseResult, rng *rand.Rand) {
 	seen := map[string]string{}
 	for _, id := range ids {
 		u := conversion.Uint64ToBytes(id)
-		if conversion.BytesToUint64(u) != id || len(u) != 8 {
+		if conversion.BytesToUint64(u) != id {
 			res.Violate("uint64-roundtrip", "uint64:roundtrip", fmt.Sprintf("%d -> %x -> %d", id, u, conversion.BytesToUint64(u)), nil)
 		}
 		for _, s := range suffixes {
